@@ -72,6 +72,38 @@ def run_cli(smt2: str, timeout_s: int, which=None):
             pass
 
 
+def run_cli_all(smt2: str, timeout_s: int):
+    """Every command-line back end's own verdict on one query: {name: sat/unsat/unknown} (cross-solver agreement run)."""
+    text = "(set-logic ALL)\n" + smt2 if "(set-logic" not in smt2 else smt2
+    with tempfile.NamedTemporaryFile("w", suffix=".smt2", delete=False, dir=os.environ.get("PYVC_TMP")) as f:
+        f.write(text)
+        path = f.name
+    out = {}
+    try:
+        procs = []
+        for name, cmd, tflag in CLI:
+            args = cmd + [tflag.format(t=timeout_s, tms=timeout_s * 1000), path]
+            try:
+                procs.append((name, subprocess.Popen(args, stdout=subprocess.PIPE, stderr=subprocess.DEVNULL, text=True)))
+            except FileNotFoundError:
+                continue
+        for name, p in procs:
+            try:
+                stdout, _ = p.communicate(timeout=timeout_s + 5)
+            except subprocess.TimeoutExpired:
+                p.kill()
+                stdout = ""
+            lines = (stdout or "").strip().splitlines()
+            head = lines[0].strip() if lines else ""
+            out[name] = head if head in ("sat", "unsat") else "unknown"
+        return out
+    finally:
+        try:
+            os.unlink(path)
+        except OSError:
+            pass
+
+
 # wall-clock budget of the in-process attempts: obligations of the unchanged tree need well under 2.5 s on an idle machine;
 # the margin is for a machine whose 16 cores are all busy (a verdict must not flip to `unknown` under load)
 IN_PROCESS_MS = 8000
